@@ -298,6 +298,37 @@ def run_item(item):
         reform("function_list", t1, params, [shared, modified(functions[t1])], allowed_from({t1}), must_change=t1)
         reform("function_list", t2, params, [shared, {t2: modified(functions[t2])}], allowed_from({t2}), must_change=t2)
         reform("identical", f"baseline with the environment dict that went through list-form reforms of {t1}, {t2}", params, shared, set())
+    # (c3) the reform lives in a user module that is named like the package module it reforms and imports that module's
+    #      other functions (a common way to write a reform file); passed as import string and as path.  Only the function
+    #      the user module DEFINES may enter the graph.
+    import importlib
+    import pathlib
+    import sys as _sys
+    import tempfile
+
+    for t in [x for x in mine if (functions[x].__module__ or "").startswith("_gettsim.")][:2]:
+        f0 = functions[t]
+        base = f0.__module__.rpartition(".")[2]
+        with tempfile.TemporaryDirectory() as td:
+            src = (f"from {f0.__module__} import *  # noqa\n"
+                   f"from {f0.__module__} import {f0.__name__} as _orig\n"
+                   f"import {f0.__module__} as _m\n"
+                   "from vf.checks.c06 import modified as _modified\n"
+                   "for _n in dir(_m):\n"
+                   "    if not _n.startswith('__'):\n"
+                   "        globals().setdefault(_n, getattr(_m, _n))\n"
+                   f"{t} = _modified(_orig)\n"
+                   f"{t}.__module__ = __name__\n")
+            pathlib.Path(td, base + ".py").write_text(src, encoding="utf-8")
+            _sys.path.insert(0, td)
+            try:
+                _sys.modules.pop(base, None)
+                importlib.invalidate_caches()
+                reform("function_module_string", t, params, [functions, base], allowed_from({t}), must_change=t)
+                reform("function_module_path", t, params, [functions, pathlib.Path(td, base + ".py")], allowed_from({t}), must_change=t)
+            finally:
+                _sys.path.remove(td)
+                _sys.modules.pop(base, None)
     # (d) a user function that reads one of its arguments in another time unit (weekly instead of monthly):
     #     the derived weekly node must not disturb its monthly source nor anything else outside descendants(f)
     import re as _re
